@@ -21,13 +21,13 @@ theorem stmtSemF_seq {ctx : Ctx} {T : List FEntry} {B : Nat} {src1 src2 src : Na
       (∃ f1 f2 c1, src1 f1 c = some (.normal, c1) ∧ src2 f2 c1 = some (o, c'))) :
     StmtSemF ctx T B src s s2 := by
   have hfc := h1.forCounter
-  obtain ⟨cs1, n1, m1, e1, hl1, sim1⟩ := h1
-  obtain ⟨cs2, n2, m2, e2, hl2, sim2⟩ := h2
-  refine ⟨cs1 ++ cs2, n1 + n2, m1 + m2, ?_, ?_, ?_⟩
-  · rw [e2, e1, adv2_adv2, flats_append, List.reverse_append]
+  obtain ⟨cs1, n1, m1, r1, e1, hl1, sim1⟩ := h1
+  obtain ⟨cs2, n2, m2, r2, e2, hl2, sim2⟩ := h2
+  refine ⟨cs1 ++ cs2, n1 + n2, m1 + m2, r1.or r2, ?_, ?_, ?_⟩
+  · rw [e2, e1, adv2_reqSt, reqSt_reqSt, adv2_adv2, flats_append, List.reverse_append]
   · rw [flats_append]
     refine (hl1.mono (by omega)).append ?_
-    have : s1.forCounter + m2 = s.forCounter + (m1 + m2) := by rw [e1]; simp [adv2, Nat.add_assoc]
+    have : s1.forCounter + m2 = s.forCounter + (m1 + m2) := by rw [e1]; simp [adv2, reqSt, Nat.add_assoc]
     rw [← this]; exact hl2
   · intro fuel c o c' hs m hi
     rcases hsrc fuel c o c' hs with ⟨f1, hs1, hne⟩ | ⟨f1, f2, c1, hs1, hs2⟩
@@ -41,7 +41,7 @@ theorem stmtSemF_seq {ctx : Ctx} {T : List FEntry} {B : Nat} {src1 src2 src : Na
       exact ⟨mb, ob, execCmds_append exa exb, hrb, hob, fun hne => ka.trans (hkb hne) hfc, hvb⟩
 
 theorem stmtSemF_nil (ctx : Ctx) (T : List FEntry) (B : Nat) (s : St) : StmtSemF ctx T B (fun f c => execSs f [] c) s s := by
-  refine ⟨[], 0, 0, rfl, by simp [flats]; exact LinesOK.nil _ _ _, ?_⟩
+  refine ⟨[], 0, 0, Req.none, by rw [reqSt_none]; rfl, by simp [flats]; exact LinesOK.nil _ _ _, ?_⟩
   intro fuel c o c' hs m hi
   cases fuel with
   | zero => simp [execSs] at hs
